@@ -268,6 +268,11 @@ def stores(repo, fi):
                 out.append(("item_store", rootname, t, n))
             elif isinstance(t, ast.Name) and t.id in globals_declared:
                 out.append(("global_store", t.id, t, n))
+        if isinstance(n, ast.AugAssign) and isinstance(n.target, ast.Name) and isinstance(n.op, (ast.BitOr, ast.Add, ast.BitAnd, ast.Sub, ast.BitXor)) \
+                and (isinstance(n.value, (ast.Dict, ast.List, ast.Set, ast.DictComp, ast.ListComp, ast.SetComp))
+                     or (isinstance(n.value, ast.Call) and isinstance(n.value.func, ast.Name) and n.value.func.id in ("dict", "list", "set"))):
+            # x |= {...} / x += [...] updates the object x refers to in place (dict, list, set): every alias sees it
+            out.append(("mutate", n.target.id, n.target, n))
         if isinstance(n, ast.Call) and isinstance(n.func, ast.Attribute) and n.func.attr in MUTATING_METHODS:
             root = n.func.value
             while isinstance(root, (ast.Attribute, ast.Subscript)):
